@@ -88,7 +88,9 @@ type c20POnly struct {
 func (p *c20POnly) Only() string { return "only:" + p.Lbl }
 func (p *c20POnly) Count() int   { return p.A + 1 }
 
-const c20NFixed = 11
+type c20Lang string
+
+const c20NFixed = 14
 
 func c20Fixed(t int) interface{} {
 	mv := c20MV{A: 11, Lbl: "mv", hid: "secret"}
@@ -115,6 +117,14 @@ func c20Fixed(t int) interface{} {
 		return c20Person{&c20Addr{"Oslo", 150}, "someone"}
 	case -11:
 		return c20POnly{"po", 4}
+	case -12:
+		// interface-keyed (as YAML decoders return), with keys of other kinds next to the strings
+		return map[interface{}]interface{}{"name": "iface-keyed", "A": 1, 1: "one", true: "yes", "sub": map[interface{}]interface{}{"z": 8}}
+	case -13:
+		// keyed by a named string type
+		return map[c20Lang]string{"name": "named-key", "A": "a", "Lbl": "l"}
+	case -14:
+		return map[c20Lang]interface{}{"name": "named-key-2", "sub": map[string]interface{}{"z": 7}, "inner": map[c20Lang]string{"name": "deeper"}}
 	}
 	panic("fixed type")
 }
@@ -189,6 +199,14 @@ func c20Resolve(v interface{}, attr string) (interface{}, bool) {
 	}
 	rv := reflect.ValueOf(v)
 	if rv.Kind() == reflect.Map {
+		if rv.Type().Key().Kind() == reflect.Interface {
+			// an interface-keyed map holds the attribute under the string key of that name
+			mv := rv.MapIndex(reflect.ValueOf(attr))
+			if !mv.IsValid() {
+				return nil, false
+			}
+			return mv.Interface(), true
+		}
 		if rv.Type().Key().Kind() != reflect.String {
 			return nil, false
 		}
@@ -488,7 +506,7 @@ func TestC20Attr(t *testing.T) {
 // TestC20Family: every (fixed value, attribute, value/pointer, form) combination, before and
 // after flooding the cache past its capacity twice.
 func TestC20Family(t *testing.T) {
-	r := NewRec(t, "C20", "exhaustive: the 11 fixed values (method family incl. a type with pointer-receiver methods only, embedded pointers, maps) x 23 attribute names x {value, pointer} x {x.name, x['name']}, asked three times with two floods of 1200 fresh (type, name) pairs in between; non-trivial = all")
+	r := NewRec(t, "C20", "exhaustive: the 14 fixed values (method family incl. a type with pointer-receiver methods only, embedded pointers, maps: untyped, typed, interface-keyed, keyed by a named string type) x 23 attribute names x {value, pointer} x {x.name, x['name']}, asked three times with two floods of 1200 fresh (type, name) pairs in between; non-trivial = all")
 	defer r.Flush()
 	r.SetExhaustive()
 	var steps []C20Step
